@@ -49,16 +49,24 @@ def rust_line(acts):
     for a in acts:
         if a[0] in ("do", "start"):
             out.append(f"{a[0]} {rust_call(a[1])}")
-        elif a[0] == "rel":
-            out.append(f"rel {a[1]}")
+        elif a[0] in ("rel", "ps"):
+            out.append(f"{a[0]} {a[1]}")
         else:
             out.append("run")
     return " ; ".join(out)
 
 
+def coq_exec(acts):
+    """the model run of a scenario: post_stop releases (ps) are a parameter of exec_ps"""
+    ps = [a[1] for a in acts if a[0] == "ps"]
+    return f"exec_ps [{'; '.join(str(x) for x in ps)}] {coq_acts(acts)}"
+
+
 def coq_acts(acts):
     out = []
     for a in acts:
+        if a[0] == "ps":
+            continue
         if a[0] == "do":
             out.append(f"ADo {coq_call(a[1])}")
         elif a[0] == "start":
@@ -80,6 +88,8 @@ def calls_in(c):
 def scenario_stats(acts):
     st = {"sends": 0, "drains": 0, "stops": 0, "kills": 0, "gated": 0, "nested": 0, "runs": 0}
     for a in acts:
+        if a[0] == "ps":
+            continue
         if a[0] in ("do", "start"):
             for c in calls_in(a[1]):
                 if c["k"] == "S":
@@ -117,7 +127,7 @@ def interleavings(seqs):
             yield (s[0],) + tail
 
 
-def gen_exhaustive(n_senders, n_drains, variant, pre=True, blocks=()):
+def gen_exhaustive(n_senders, n_drains, variant, pre=True, blocks=(), ps=()):
     """every order of {start_i, release_i} of n gated sender threads and n_drains drain calls
     (the box_message door: a parked sender holds an admission ticket and has not enqueued).
     variant: 'plain' | 'redrain' (sender 1 drains re-entrantly from box_message) |
@@ -130,7 +140,7 @@ def gen_exhaustive(n_senders, n_drains, variant, pre=True, blocks=()):
     for bi, b in enumerate(blocks):
         seqs = seqs + [[("block", bi)]]
     for order in interleavings(seqs):
-        acts = []
+        acts = [("ps", k) for k in ps]
         pid = 1
         if pre:
             acts.append(("do", S(pid)))
@@ -152,7 +162,8 @@ def gen_exhaustive(n_senders, n_drains, variant, pre=True, blocks=()):
             elif tok[0] == "drain":
                 acts.append(("do", D))
             elif tok[0] == "block":
-                acts.append(("do", blocks[tok[1]]))
+                # the string "run" as a block = let the actor run at this point
+                acts.append(("run",) if blocks[tok[1]] == "run" else ("do", blocks[tok[1]]))
             else:
                 acts.append(("do", S(pid)))
                 pid += 1
@@ -174,11 +185,11 @@ def gen_random(rng, profile):
     def wrong_flag():
         # wrong-typed send through one of the public entry points (send_message / cast / call,
         # on the cell or on an ActorRef::<Wrong>::from(cell))
-        return "w" + str(rng.randrange(0, 7))
+        return "w" + str(rng.randrange(0, 10))
 
     def via_flag():
         # correctly typed sends mostly through ActorCell::send_message, sometimes cast / call
-        return str(rng.randrange(1, 7)) if rng.random() < 0.3 else ""
+        return str(rng.randrange(1, 10)) if rng.random() < 0.3 else ""
 
     def leaf_call(depth):
         r = rng.random()
@@ -214,6 +225,10 @@ def gen_random(rng, profile):
         return S(new_pid(), flags, box, h)
 
     acts = []
+    if rng.random() < 0.25:
+        # post_stop of the target releases these threads (a parked sender completes between the loop exit
+        # and the drop of the ports)
+        acts = [("ps", k) for k in rng.sample([0, 1, 2], rng.choice([1, 1, 2, 3]))]
     parked = []
     nstarted = 0
     n = rng.choice([3, 5, 7, 9, 12])
@@ -270,6 +285,14 @@ CORPUS = [
     # correctly typed cast / call (with and without timeout) from the driver, a handler and a parked thread
     [("do", S(1, "3")), ("do", S(2, "4")), ("start", S(3, "g6", [S(4, "w3")])), ("do", S(5, "2", [], [S(6, "w4"), S(7, "4")])),
      ("run",), ("rel", 0), ("do", D), ("do", S(8, "3")), ("run",)],
+    # seeded C07-3 family: a sender admitted before the drain is still parked in box_message when the actor comes
+    # back to the top of its loop with an empty mailbox; post_stop (were the actor to leave its loop) lets it finish
+    [("ps", 0), ("do", S(1)), ("start", S(2, "g")), ("do", D), ("run",), ("rel", 0), ("run",), ("do", S(3)), ("run",)],
+    # post_stop after a stop: the parked sender's message is accepted and flushed (stop intervened)
+    [("ps", 0), ("start", S(1, "g")), ("do", T), ("run",), ("rel", 0), ("do", S(2)), ("run",)],
+    # seeded C02-3 family: call_and_forward / multi_call followed at once by another send of the same sender
+    [("do", S(1, "7")), ("do", S(2)), ("do", S(3, "8")), ("do", S(4)), ("do", S(5, "9")), ("do", S(6)),
+     ("do", S(7, "2", [], [S(8, "7"), S(9)])), ("run",)],
     # drain while a sender is parked, actor runs in between, then release
     [("do", S(1)), ("start", S(2, "g")), ("do", D), ("run",), ("do", S(3)), ("rel", 0), ("run",), ("do", D), ("run",)],
 ]
@@ -297,7 +320,7 @@ def run_scenarios(chk, build, scenarios, tag):
         log = show_term(t[1])
         alive_idle = not any(isinstance(e, tuple) and e[0] == "EExit" for e in t[1])
         r["alive_idle"] = alive_idle
-        exprs.append(f"let s := exec {coq_acts(acts)} in (check_C07 true {log}, "
+        exprs.append(f"let s := {coq_exec(acts)} in (check_C07 true {log}, "
                      f"check_C02 {coq_bool(alive_idle)} {log}, complete s, view s)")
         res.append(r)
     vals = coq_eval(tag, IMPORTS, exprs, scope="nat_scope")
